@@ -439,21 +439,10 @@ impl ValveState {
     pub fn expected_rules(&self) -> HashMap<String, String> { self.rules.iter().cloned().collect() }
 }
 
-/// `extra_data: None` and `Some(all None)` carry the same information.
-pub fn normalise_info(mut i: ServerInfo) -> ServerInfo {
-    if let Some(e) = &i.extra_data {
-        if e.port.is_none()
-            && e.steam_id.is_none()
-            && e.tv_port.is_none()
-            && e.tv_name.is_none()
-            && e.keywords.is_none()
-            && e.game_id.is_none()
-        {
-            i.extra_data = None;
-        }
-    }
-    i
-}
+/// The representation is part of what is returned: a reply that carries the extra-data flag byte gives
+/// `Some(ExtraData)` (every member `None` when no flag is set), a reply that ends before the byte gives
+/// `None`. (An earlier version of the checks treated the two as the same information.)
+pub fn normalise_info(i: ServerInfo) -> ServerInfo { i }
 
 // ---------------------------------------------------------------- transport
 
